@@ -282,11 +282,14 @@ WriteData(p, id, off, n) ==
            ELSE IF e.size < Cutoff
            THEN (IF newLen < Cutoff
                  THEN GrowMini(p, e.start, CeilDiv(off + n, MiniLen))            \* 2a
-                 ELSE LET q == FreeMiniChain(p, e.start) IN                      \* 2b: migrate
-                      GrowChain(q, ENDC, CeilDiv(off + n, SectorLen)))
+                 ELSE GrowChain(p, ENDC, CeilDiv(off + n, SectorLen)))           \* 2b: migrate
            ELSE GrowChain(p, e.start, CeilDiv(off + n, SectorLen))               \* 3
+      q == SetE(r.p, id, [E(r.p, id) EXCEPT !.start = r.start, !.size = newLen])
+      \* the chain the stream no longer uses is released AFTER the entry has been updated (since the
+      \* repair of the release-before-update order: a failure in between must not leave the entry
+      \* pointing into space that is handed out again)
   IN IF n = 0 THEN p
-     ELSE SetE(r.p, id, [E(r.p, id) EXCEPT !.start = r.start, !.size = newLen])
+     ELSE IF e.start # ENDC /\ e.size < Cutoff /\ newLen >= Cutoff THEN FreeMiniChain(q, e.start) ELSE q
 
 (* resize_stream(id, newLen) *)
 Resize(p, id, newLen) ==
@@ -295,18 +298,21 @@ Resize(p, id, newLen) ==
            THEN (IF newLen < Cutoff THEN MiniSetLen(p, ENDC, newLen)             \* 1a
                  ELSE ChainSetLen(p, ENDC, newLen))                              \* 1b
            ELSE IF e.size < Cutoff
-           THEN (IF newLen = 0 THEN [p |-> FreeMiniChain(p, e.start), start |-> ENDC]        \* 2a
+           THEN (IF newLen = 0 THEN [p |-> p, start |-> ENDC]                                 \* 2a
                  ELSE IF newLen < Cutoff THEN MiniSetLen(p, e.start, newLen)                  \* 2b
-                 ELSE LET q == FreeMiniChain(p, e.start)                                      \* 2c
-                          g == GrowChain(q, ENDC, CeilDiv(e.size, SectorLen))
+                 ELSE LET g == GrowChain(p, ENDC, CeilDiv(e.size, SectorLen))                 \* 2c
                       IN ChainSetLen(g.p, g.start, newLen))
-           ELSE (IF newLen = 0 THEN [p |-> FreeChain(p, e.start), start |-> ENDC]            \* 3a
+           ELSE (IF newLen = 0 THEN [p |-> p, start |-> ENDC]                                 \* 3a
                  ELSE IF newLen < Cutoff
-                 THEN LET q == FreeChain(p, e.start) IN                                       \* 3b
-                      GrowMini(q, ENDC, CeilDiv(newLen, MiniLen))
+                 THEN GrowMini(p, ENDC, CeilDiv(newLen, MiniLen))                             \* 3b
                  ELSE ChainSetLen(p, e.start, newLen))                                        \* 3c
       st == IF newLen = 0 /\ e.start = ENDC THEN ENDC ELSE r.start
-  IN SetE(r.p, id, [E(r.p, id) EXCEPT !.start = st, !.size = newLen])
+      q == SetE(r.p, id, [E(r.p, id) EXCEPT !.start = st, !.size = newLen])
+      \* release of the old chain, after the entry update (see WriteData)
+  IN IF e.start = ENDC THEN q
+     ELSE IF e.size < Cutoff
+     THEN (IF newLen = 0 \/ newLen >= Cutoff THEN FreeMiniChain(q, e.start) ELSE q)
+     ELSE (IF newLen < Cutoff THEN FreeChain(q, e.start) ELSE q)
 
 ---------------------------------------------------------------------------
 (* API level, in terms of (parent slot, name)                                *)
